@@ -37,6 +37,8 @@ def exhaustive_specs(rng, tier):
 
 
 def run(res, replay=None):
+    # structural tie of the cache machine of the state space (update_epoch, drop_S, drop_cache, S, _get_rate_matrix, states): translate the CURRENT source and re-check proofs/GenCacheEquiv.v
+    import translate_step; (res.proof is not None) and translate_step.run(res.proof, pid=res.pid, tie='cache')
     # structural tie of the configuration classes (locus.py, lineage.py, StateSpace.alpha): translate the CURRENT source and re-check proofs/GenConfigsEquiv.v
     import translate_step; (res.proof is not None) and translate_step.run(res.proof, pid=res.pid, tie='configs')
     # structural tie of the class Transition of phasegen/state_space.py: translate the CURRENT source and re-check proofs/GenTransitionEquiv.v
